@@ -825,6 +825,17 @@ fn cmd_cfgrandom(args: &[String]) {
         // done per batch of targets meets a last, partial batch
         let fan = k % 5 == 3;
         let many = k % 7 == 5;
+        // family "chain" (every sixth case): X uses M, M uses a sub-path of Y; a change elsewhere in Y and one in X leave M
+        // unchanged between two changed targets. family "ghost" (every eighth): uses / ignores entries naming paths that
+        // do not exist in the work tree (deleted files, build output not yet produced), with changes under them
+        let chain = k % 6 == 2 && !many;
+        let ghost = k % 8 == 1 && !many;
+        if chain {
+            for d in ["chy", "chm", "chx"] {
+                dirs.push(vec![d.to_string()]);
+            }
+            dirs.push(vec!["chy".to_string(), "api".to_string()]);
+        }
         let nfan = if fan { rng.gen_range(6..=14) } else { 0 };
         let nmany = if many { rng.gen_range(51..=130) } else { 0 };
         for i in 0..nfan {
@@ -856,7 +867,7 @@ fn cmd_cfgrandom(args: &[String]) {
         }
         // targets: a random subset of directories (some nested), occasionally a file
         let nt = rng.gen_range(2..=max_targets.min(dirs.len() - nfan - nmany - (if fan { 1 } else { 0 })).max(2));
-        let mut tdirs: Vec<APath> = dirs.iter().filter(|d| !(d[0].starts_with("fan") || (d[0].starts_with('m') && d[0].len() == 4 && d[0][1..].chars().all(|c| c.is_ascii_digit())))).cloned().collect();
+        let mut tdirs: Vec<APath> = dirs.iter().filter(|d| !(d[0].starts_with("fan") || d[0].starts_with("ch") && d[0].len() == 3 || (d[0].starts_with('m') && d[0].len() == 4 && d[0][1..].chars().all(|c| c.is_ascii_digit())))).cloned().collect();
         tdirs.shuffle(&mut rng);
         tdirs.truncate(nt.min(tdirs.len()));
         if rng.gen_bool(0.2) {
@@ -964,6 +975,26 @@ fn cmd_cfgrandom(args: &[String]) {
             if rng.gen_bool(0.5) {
                 changes.push(vec!["fanshared".to_string(), "other.rs".to_string()]);
             }
+        }
+        if chain {
+            ts.push(ATarget { path: vec!["chy".into()], uses: vec![], ignores: vec![] });
+            ts.push(ATarget { path: vec!["chm".into()], uses: vec![vec!["chy".into(), "api".into()]], ignores: vec![] });
+            ts.push(ATarget { path: vec!["chx".into()], uses: vec![vec!["chm".into()]], ignores: vec![] });
+            // exactly two changes: one in Y outside the sub-path M uses, one in X
+            changes = vec![vec!["chy".into(), "f.txt".into()], vec!["chx".into(), "f.txt".into()]];
+        }
+        if ghost {
+            let g1 = vec!["ghostdir".to_string(), "dist".to_string()];
+            let g2 = vec![ts[0].path[0].clone(), "build-output".to_string(), "gen.rs".to_string()];
+            let n = ts.len();
+            ts[n - 1].uses.push(g1.clone());
+            ts[n - 1].uses.sort();
+            ts[0].ignores.push(g2.clone());
+            ts[0].ignores.sort();
+            let mut c1 = g1.clone();
+            c1.push("removed.bin".to_string());
+            changes.push(c1);
+            changes.push(g2.clone());
         }
         if many {
             // flat targets with `uses` pointing at lower-numbered ones; only small change sets, no layering oracle
